@@ -208,8 +208,8 @@ type c06Artefact struct {
 }
 
 var c06SpecOpts = map[string]map[string]string{
-	"dlg": {"pol": "eq", "meta": "k=str-ascii", "nonce": "12", "exp": "whole", "nbf": "in-past"},
-	"inv": {"args": "k=int1", "meta": "k=str-ascii", "nonce": "12", "iat": "whole", "exp": "whole", "cause": "cid", "aud": "third"},
+	"dlg": {"pol": "eq", "meta": "k=str-repl", "nonce": "12", "exp": "whole", "nbf": "in-past"},
+	"inv": {"args": "k=int1", "meta": "k=str-repl", "nonce": "12", "iat": "whole", "exp": "whole", "cause": "cid", "aud": "third"},
 }
 
 func c06Bytes(a c06Artefact) []byte {
